@@ -48,6 +48,9 @@ CLAIMS = {
  "C15": dict(design="5/C15", tech=E1 + " over a virtual-time reactor",
    text="Spinner.run on a deterministic virtual-time reactor: function behaviour x Deferred delay 0..3 x timeout 1..3 x stop request at 0..3/never (every order and tie of fire, timeout, stop) x left-over delayed calls / selectables x pre-installed signal handlers x second run with/without clear_junk; result compared with a first-event-wins reference, and afterwards reactor not running, no pending calls or selectables, junk reported, reactor.stop and signal handlers restored; re-entry refused. Exhaustive over the selector space.",
    note="VReactor = twisted.internet.task.Clock + run/crash/stop/callWhenRunning/removeAll/iterate; the real reactor and wall-clock timing are outside the claim."),
+ "C20": dict(design="5/C20", tech=E1 + "; symbolic Deferred results and matcher parameters",
+   text="Deferred state (unfired / fired with symbolic int, None, nested tuple / failed with 3 exception classes) x pre-attached callbacks x inner matchers (Equals on a symbolic parameter): exactly one of has_no_result/succeeded(Always)/failed(Always) matches on fresh Deferreds, succeeded(m)/failed(m) iff state and m, extract_result, matching never fires, results intact for later callbacks in every order of match/fire/add-callback, inspected failures leave no unhandled-failure record at GC, and SynchronousDeferredRunTest gives the same log as the direct program for every (stage, behaviour, flavour). Exhaustive over selectors; all ints within each path.",
+   note="Chained/paused Deferreds outside the claim; GC is CPython refcounting + gc.collect()."),
  "C16": dict(design="5/C16", tech=E1 + "; symbolic byte payloads, chunk sizes and offsets",
    text="Chunk reader on symbolic data bytes/chunk sizes/offsets (all values within length bound), real-file reader, chunk-independent decoding for every pair of cut positions over a class-representative alphabet, Content equality on symbolic bytes, ContentType MIME round trip over a token/value alphabet, snapshot semantics; exhaustive within the bounds.",
    note="Stream modelled by ModelStream (io.BytesIO contract); codecs are CPython's (text is a finite alphabet); open known finding F9 (charset containing a comma) is excluded by class."),
